@@ -162,7 +162,8 @@ def adv_p_vc(with_lens=False):
             return [("result_shapes", z3.And(ip.to_z3(y_next.shape[1]) == N, ip.to_z3(y_next.shape[2]) == W, ip.to_z3(lpn.shape[0]) == N, ip.to_z3(lpn.shape[1]) == W, ip.to_z3(lens.shape[1]) == W, ip.to_z3(src.shape[1]) == W,
                                              z3.Or(rows == S, rows == S + 1))),
                     ("path_tensor_grows_exactly_when_some_prefix_is_full", z3.And(z3.Implies(z3.And(0 <= A0, A0 < KP, LEN(N0, A0) == S), rows == S + 1),
-                                                                                 z3.Implies(rows == S + 1, z3.And([z3.And(0 <= mx["argmax"][0], mx["argmax"][0] < N, 0 <= mx["argmax"][1], mx["argmax"][1] < KP, LEN(mx["argmax"][0], mx["argmax"][1]) == S) for mx in mxs if isinstance(mx["argmax"], list)] or [z3.BoolVal(False)])))),
+                                                                                 z3.Implies(rows == S + 1, z3.And([z3.And(0 <= mx["argmax"][0], mx["argmax"][0] < N, 0 <= mx["argmax"][1], mx["argmax"][1] < KP, LEN(mx["argmax"][0], mx["argmax"][1]) == S) for mx in mxs if isinstance(mx["argmax"], list)]
+                                                                                                                    or [S == 0])))),  # (no prefixes yet: every - empty - prefix is full)
                     ("index_of_a_candidate_splits_back_into_source_and_token", z3.Implies(cand_ok, divmod_of(J, A0, V0, V, KP))),
                     ("slot_reports_its_source", z3.Implies(real0, z3.And(ip.to_z3(src.elem(N0, K0)) == src0, 0 <= src0, src0 < KP, 0 <= tok0, tok0 < V))),
                     ("slot_score_is_minus_inf_exactly_when_the_source_is", z3.Implies(real0, ninf(K0) == LPNINF(N0, src0))),
@@ -183,7 +184,7 @@ def adv_p_vc(with_lens=False):
                 ("no_unselected_candidate_beats_a_selected_one", z3.Implies(z3.And(real0, cand_ok, divmod, tk["notsel"](N0, J)), LP(N0, A0) + LT(N0, A0, V0) <= sc(K0))),
                 ("slots_beyond_the_candidates_are_fillers", z3.Implies(z3.And(KK <= K0, K0 < W), z3.And(z3.Not(fin(K0)), ip.to_z3(lens.elem(N0, K0)) == 0)))]
 
-    pre = [N >= 1, KP >= 1, V >= 1, S >= (1 if with_lens else 0), W >= 1, 0 <= N0, N0 < N] + ([z3.ForAll([n_, k_], len_ok(n_, k_))] if with_lens else [])
+    pre = [N >= 1, KP >= 1, V >= 1, S >= 0, W >= 1, 0 <= N0, N0 < N] + ([z3.ForAll([n_, k_], len_ok(n_, k_))] if with_lens else [])
     return VC("C04.P.advance_step", name, M, "beam_search_advance", thunk, pre=pre, posts=[("advance_postcondition", post)], inputs={"N": N, "old_width": KP, "V": V, "S": S, "width": W},
               timeout_ms=60000, twins=[("token_is_always_zero", lambda p: z3.Implies(z3.And(0 <= K0, K0 < KK), ip.to_z3(p.value[0].elem(S, N0, K0)) == 0) if api.returns(p) else None)],
               assumptions=["topk over a symbolic extent: in-range pairwise distinct indices, value = element at the index, non-increasing, unselected <= last selected (assumed contract, no tie rule)",
